@@ -235,6 +235,12 @@ func visitInstr(fr *frame, instr ssa.Instruction) continuation {
 	i.stats.Steps++
 	if ps := i.ps; ps != nil && i.inInit == 0 {
 		ps.steps++
+		if ps.hangBudget > 0 && ps.steps > ps.hangBudget {
+			// the harness declared that this many steps means "does not return"
+			ps.hangBudget = 0
+			ps.violated("fatal", fmt.Sprintf("no return within %d interpreted instructions (hang) in %s", ps.steps-1, fr.fn), ps.cx.True())
+			ps.fail("done", "hang budget exceeded")
+		}
 		if ps.steps > i.cfg.MaxSteps {
 			ps.fail("budget", "step budget %d exhausted (possible hang) in %s\n%s", i.cfg.MaxSteps, fr.fn, i.stackString())
 		}
